@@ -69,6 +69,9 @@ int parse_ifdef_ignore(AsmContext *asm_context, int ignore_section)
 {
   int n;
 
+  // assemble() returns 4 when it reaches the .endif of this block, 2 when
+  // it reaches its .else and 0 at the end of the file (block never closed).
+
   if (ignore_section == 1)
   {
     n = ifdef_ignore(asm_context);
@@ -77,7 +80,21 @@ int parse_ifdef_ignore(AsmContext *asm_context, int ignore_section)
 
     if (n == 2)
     {
-      if (asm_context->assemble() == -1) { return -1; }
+      n = asm_context->assemble();
+
+      if (n == -1) { return -1; }
+
+      if (n == 2)
+      {
+        print_error(asm_context, "Unmatched .else");
+        return -1;
+      }
+
+      if (n != 4)
+      {
+        print_error(asm_context, "Missing endif");
+        return -1;
+      }
     }
   }
     else
@@ -88,7 +105,21 @@ int parse_ifdef_ignore(AsmContext *asm_context, int ignore_section)
 
     if (n == 2)
     {
-      if (ifdef_ignore(asm_context) == -1) { return -1; }
+      n = ifdef_ignore(asm_context);
+
+      if (n == -1) { return -1; }
+
+      if (n == 2)
+      {
+        print_error(asm_context, "Unmatched .else");
+        return -1;
+      }
+    }
+      else
+    if (n != 4)
+    {
+      print_error(asm_context, "Missing endif");
+      return -1;
     }
   }
 
